@@ -74,7 +74,7 @@ impl Monitor for C15 {
         "C15"
     }
     fn rule(&self) -> String {
-        "cases = a package with n candidates (random ranks => random discovery order) revealed through union requirements '(z | subset of a)' in random partitions / orders / overlaps, or not revealed at all; for n <= 40 ALL pairs i<j and all singles are checked for every reveal variant (exhaustive subset, `fixed` work), for n up to 260 sampled pairs crossing the 2^k boundaries. Oracle (expected by construction): {reveal.., =i, =j} is Unsolvable, {reveal.., =i} is Ok and contains exactly candidate i of the package. Hook monitor after each solve: over the dumped forbid clauses of the package, unit propagation from any registered candidate must falsify every other one without conflict (layout independent). distinct = (n, variant, pair); non-trivial = pair at a size where >= 1 helper variable exists (n >= 2)".into()
+        "cases = a package with n candidates (random ranks => random discovery order) revealed through union requirements '(z | subset of a)' in random partitions / orders / overlaps, or not revealed at all; for n <= 40 ALL pairs i<j and all singles are checked for every reveal variant (exhaustive subset, `fixed` work), for n up to 260 sampled pairs crossing the 2^k boundaries. Oracle (expected by construction): {reveal.., =i, =j} is Unsolvable, {reveal.., =i} is Ok and contains exactly candidate i of the package. Discovery through a `constrains` entry first (no reveal variants, sampled pairs): a solvable that is tried first constrains the package, is abandoned after a conflict, and the pair / single is then required two levels down: same expectation. Hook monitor after each solve: over the dumped forbid clauses of the package, unit propagation from any registered candidate must falsify every other one without conflict (layout independent). distinct = (n, variant, pair); non-trivial = pair at a size where >= 1 helper variable exists (n >= 2)".into()
     }
     fn cases(&self, tier: Tier) -> u64 {
         tier.pick(1_800, 36_000)
@@ -191,6 +191,52 @@ impl Monitor for C15 {
                     }
                 }
                 o => ctx.violation(format!("soft-path problem did not return Ok: {}", o.tag()), format!("n={} k={k} i={i} j={j}", c.n)),
+            }
+        }
+        // discovery through a `constrains` entry first: w=2 (tried first) constrains the package to a
+        // range (its other candidates become known to the solver as non-matching ones) and needs
+        // q=1, which requires candidate j outside the range -> w=2 is abandoned; w=1 needs z=1,
+        // which requires candidates i and j (pair: Unsolvable) or only i (single: exactly i)
+        if c.reveal.is_empty() && c.n >= 2 {
+            let step = (c.pairs.len() / 6).max(1);
+            for &(i, j) in c.pairs.iter().step_by(step).take(8) {
+                for single in [false, true] {
+                    ctx.rep.evaluations += 1;
+                    ctx.rep.count("constraint-first-problems");
+                    let mut uu = (*u).clone();
+                    let (w2, w1, q1, z1) = (uu.solv("w", 2), uu.solv("w", 1), uu.solv("q", 1), uu.solv("z", 1 + 100));
+                    // a range that contains i but not j (versions are index + 1; i < j)
+                    let lo = if (i + j) % 2 == 0 { 1 } else { i + 1 };
+                    let range = uu.vs("a", lo, j + 1);
+                    let (q_any, z_any, w_any) = (uu.vs("q", 0, 1000), uu.vs("z", 101, 102), uu.vs("w", 0, 1000));
+                    uu.add_con(w2, range);
+                    uu.add_req(w2, Req::Single(q_any));
+                    uu.add_req(q1, Req::Single(c.singles[j as usize]));
+                    uu.add_req(w1, Req::Single(z_any));
+                    uu.add_req(z1, Req::Single(c.singles[i as usize]));
+                    if !single {
+                        uu.add_req(z1, Req::Single(c.singles[j as usize]));
+                    }
+                    uu.finalize();
+                    let uu = Rc::new(uu);
+                    let p = Prob { reqs: vec![Req::Single(w_any)], cons: vec![], soft: vec![] };
+                    let (_sess, out) = solve_once(&uu, &p, &c.opts);
+                    match (&out, single) {
+                        (Outcome::Unsat(_), false) => {}
+                        (Outcome::Ok(sol), false) => ctx.violation(
+                            "two candidates of one package selected together (package first met through a constrains entry)",
+                            format!("n={} pair ({i},{j}) -> {:?}", c.n, sol.iter().map(|&s| uu.solv_label(s)).collect::<Vec<_>>()),
+                        ),
+                        (Outcome::Ok(sol), true) => {
+                            let of_a: Vec<u32> = sol.iter().copied().filter(|&s| uu.solvs[s as usize].name == 0).collect();
+                            if of_a != vec![i] {
+                                ctx.violation("single candidate requested (package first met through a constrains entry) but a different set was selected", format!("n={} single {i} -> {:?}", c.n, of_a));
+                            }
+                        }
+                        (Outcome::Unsat(_), true) => ctx.violation("single candidate of a package is not selectable (package first met through a constrains entry)", format!("n={} single {i}", c.n)),
+                        (o, _) => ctx.violation(format!("constraint-first problem did not produce a verdict: {}", o.tag()), format!("n={} pair ({i},{j}) single={single}", c.n)),
+                    }
+                }
             }
         }
         if c.exhaustive {
